@@ -348,6 +348,7 @@ def run(ctx):
     _run_rules(ctx)
     from .. import boundaries
     boundaries.check(ctx, 'C19.RB', 'C19')
+    boundaries.check_codes(ctx, 'C19.RE', 'C19')
     boundaries.check_writes(ctx, 'C19.RW', 'C19')
     from . import C14
     C14.r7_no_loss(ctx, 'C19.R9', C14.GOAWAY_SLOT, floor=3)  # a GOAWAY that is due is never dropped under write back-pressure
